@@ -98,6 +98,7 @@ HANDLERS = {
     "security_access/key": ("SendKeyRequest", ["int", "bytes", "bool"]),
     "routine_control": ("StartRoutineRequest", ["int", "bytes", "bool"]),
     "read_data_by_identifier": ("ReadDataByIdentifierRequest", ["int"]),
+    "read_data_by_identifier/several-identifiers": ("ReadDataByIdentifierRequest", ["intlist"]),
     "write_data_by_identifier": ("WriteDataByIdentifierRequest", ["int", "bytes"]),
     "input_output_control_by_identifier": ("InputOutputControlByIdentifierRequest",
                                            ["int", "bytes", "bytes"]),
@@ -140,7 +141,10 @@ def handler_harness(name: str):
         for i, k in enumerate(kinds):
             args.append({"int": lambda: I.fresh_int(f"a{i}", inp=True),
                          "bool": lambda: I.fresh_bool(f"a{i}", inp=True),
-                         "bytes": lambda: I.fresh_bytes(f"a{i}", inp=True)}[k]())
+                         "bytes": lambda: I.fresh_bytes(f"a{i}", inp=True),
+                         "intlist": lambda: VList([
+                             I.fresh_int(f"a{i}_{j}", inp=True)
+                             for j in range(2 + I.choose([z3.BoolVal(True)] * 2))])}[k]())
         try:
             req = I.call(getattr(S, cname), *args)
             I.getattr_v(req, "pdu")
@@ -277,6 +281,12 @@ def build_units(tier: str) -> list[Unit]:
         units.append(Unit(f"handler/{h}", handler_harness(h), max_paths=50000, bounded=b))
     for k in ("raw", "dsc", "rdbi", "tp", "reset", "wdbi"):
         units.append(Unit(f"default-rules/{k}", default_rule_harness(k), max_paths=50000))
+    # handle_request hands the received bytes to UDSRequest.parse_dynamic: its contract (total,
+    # keeps the bytes) is discharged against its body here as well (units shared with C01)
+    from . import c01
+    for u in c01.build_units(tier)[0]:
+        if u.uid.startswith("parse-total/"):
+            units.append(u)
     units.append(Unit("session-invariant/respond", session_harness, max_paths=20000))
     units.append(Unit("transport/handle_request", transport_harness))
     return units
@@ -288,10 +298,17 @@ def native_replay(unit: str, obligation: str, model: dict) -> tuple[bool, str]:
     import asyncio
     import logging
     logging.disable(logging.CRITICAL)
+    if unit.startswith("parse-total/"):
+        from . import c01
+        return c01.native_parse_total(unit, model)
     sv = SV()
     from gallia.services.uds import helpers
     from gallia.services.uds.core import service as S
     probes = {"handler/ecu_reset": [bytes([0x11, i]) for i in (1, 2, 3, 4, 0x84)],
+              "handler/read_data_by_identifier/several": [
+                  bytes([0x22]) + a.to_bytes(2, "big") + b.to_bytes(2, "big")
+                  for a in (0xF186, 0x0001, 0x0002, 0x0100, 0x1234, 0xF190)
+                  for b in (0xF190, 0x0003, 0x4321)],
               "handler/security_access": [bytes([0x27, 1]), bytes([0x27, 2, 1, 2])],
               "handler/read_dtc": [bytes([0x19, 2, 0xFF]), bytes([0x19, 1, 0xFF])]}
     reqs = next((v for k, v in probes.items() if unit.startswith(k)), None) or \
@@ -299,8 +316,12 @@ def native_replay(unit: str, obligation: str, model: dict) -> tuple[bool, str]:
          for a in (0, 1, 2, 0x81) for b in (0, 1, 0xFF)]
 
     async def go() -> tuple[bool, str]:
-        for seed in range(1, 6):
-            srv = sv.RandomUDSServer(seed)
+        dense = sv.RandomUDSServer.RandomnessParameters(
+            p_identifier=0.5, p_service=1.0, mandatory_services=[0x10, 0x22])
+        for seed in range(1, 9):
+            # identifier-level units: a model that supports many identifiers
+            srv = sv.RandomUDSServer(seed, dense) if "identifier" in unit else \
+                sv.RandomUDSServer(seed)
             await srv.setup()
             for raw in reqs:
                 q = S.UDSRequest.parse_dynamic(raw)
